@@ -176,6 +176,9 @@ def check_route(rep, db, f, inst):
             n_store += 1
             continue
         if ptr_array and not stores:
+            if any(e.kind == "LOOP_BEGIN" for e in p.events):
+                rep.violation(rule, site(f), "an iteration of the element loop leaves its destination element unwritten (the element keeps whatever it held before)", f["loc"], inst)
+                return True
             continue  # zero-iteration path of the element loop (pruned for constant bounds)
         for i, e in stores:
             n_store += 1
